@@ -219,7 +219,7 @@ Lemma model_direct ops rq t : model (Direct ops rq t) = run false (tbl_oracle t)
 Proof. reflexivity. Qed.
 Lemma model_http ops rq t : model (Http ops rq t) = run true (tbl_oracle t) (configure ops) rq.
 Proof.
-  unfold model, run. cbn [andb]. destruct (precheck (configure ops) rq); [reflexivity|].
+  unfold model, run. cbn [resolve model_core andb]. destruct (precheck (configure ops) rq); [reflexivity|].
   destruct (read_body (tbl_oracle t) (configure ops) rq) as [[b|e] n]; reflexivity.
 Qed.
 
@@ -438,14 +438,65 @@ Proof.
     destruct (beqb k c' && beqb d d'); [unfold short in H1; lia | now apply IH].
 Qed.
 
+(* ---- isMaxBytesExempt: the code's test is the spec's, and both mean one thing -------------- *)
+Lemma path_under_spec base : forall path, path_under base path = s_under base path.
+Proof.
+  unfold path_under, s_under. induction base as [|b bs IH]; intro path.
+  - cbn [app has_prefix length skipn andb]. destruct path as [|ch t]; [reflexivity|].
+    cbn [beqb has_prefix orb]. now rewrite andb_true_r, N.eqb_sym.
+  - destruct path as [|ch t]; [reflexivity|].
+    cbn [app beqb has_prefix length skipn]. specialize (IH t).
+    rewrite (N.eqb_sym ch b). destruct (N.eqb b ch); cbn [andb orb]; [exact IH | reflexivity].
+Qed.
+
+Lemma exempt_eq pfx path : is_exempt pfx path = s_exempt pfx path.
+Proof. unfold is_exempt, s_exempt. now rewrite !path_under_spec. Qed.
+
+Lemma path_under_iff base path :
+  path_under base path = true <-> path = base \/ exists rest, path = base ++ SLASH :: rest.
+Proof.
+  unfold path_under. rewrite orb_true_iff, beqb_eq, has_prefix_spec. split; intros [H|[r H]]; auto.
+  - right. exists r. now rewrite H, <- app_assoc.
+  - right. exists r. now rewrite H, <- app_assoc.
+Qed.
+
+Theorem exempt_exact pfx path :
+  is_exempt pfx path = true <->
+  exists base, (base = pfx ++ health_route \/ base = health_route) /\
+               (path = base \/ exists rest, path = base ++ SLASH :: rest).
+Proof.
+  unfold is_exempt. rewrite orb_true_iff, !path_under_iff. split.
+  - intros [H|H]; [exists (pfx ++ health_route) | exists health_route]; auto.
+  - intros [base [[E|E] H]]; subst base; auto.
+Qed.
+
+Lemma resolve_eq i : resolve s_exempt i = resolve is_exempt i.
+Proof. destruct i; cbn [resolve]; try reflexivity; now rewrite exempt_eq. Qed.
+
+Lemma core_meets_spec i : fits i = true -> spec_core i (model_core i) = true.
+Proof.
+  destruct i as [ops rq t | ops rq t | data ce m t | pfx path ops rq t | pfx path ops rq t];
+    cbn [fits spec_core]; intro Hn; try reflexivity.
+  - apply andb_true_iff in Hn as [H1 H2]. change (model_core (Direct ops rq t)) with (model (Direct ops rq t)).
+    rewrite model_direct.
+    apply run_meets_spec; [unfold short in H1; lia | intros _ _; now apply tbl_short].
+  - apply andb_true_iff in Hn as [H1 H2]. change (model_core (Http ops rq t)) with (model (Http ops rq t)).
+    rewrite model_http.
+    apply run_meets_spec; [unfold short in H1; lia | intros _ _; now apply tbl_short].
+  - cbn [model_core]. apply stack_meets_spec. now apply tbl_short.
+Qed.
+
+Lemma at_resolve pfx path ops rq t :
+  model (DirectAt pfx path ops rq t) = model (Direct ops (with_exempt (is_exempt pfx path) rq) t) /\
+  model (HttpAt pfx path ops rq t) = model (Http ops (with_exempt (is_exempt pfx path) rq) t).
+Proof. split; reflexivity. Qed.
+
+Lemma fits_resolve ex i : fits (resolve ex i) = fits i.
+Proof. destruct i; reflexivity. Qed.
+
 Theorem model_meets_spec i : fits i = true -> spec_ok i (model i) = true.
 Proof.
-  destruct i as [ops rq t | ops rq t | data ce m t]; cbn [fits spec_ok]; intro Hn.
-  - apply andb_true_iff in Hn as [H1 H2]. rewrite model_direct.
-    apply run_meets_spec; [unfold short in H1; lia | intros _ _; now apply tbl_short].
-  - apply andb_true_iff in Hn as [H1 H2]. rewrite model_http.
-    apply run_meets_spec; [unfold short in H1; lia | intros _ _; now apply tbl_short].
-  - cbn [model]. apply stack_meets_spec. now apply tbl_short.
+  intro Hn. unfold spec_ok, model. rewrite resolve_eq. apply core_meets_spec. now rewrite fits_resolve.
 Qed.
 
 (* ==== readable statements, over an arbitrary codec satisfying the oracle premises =================== *)
